@@ -52,10 +52,6 @@ impl InMemorySigner {
 pub fn derive_private_key(secp: &VxSecp, point: &PublicKey, base: &SecretKey) -> (r: SecretKey) ensures r == derived_private_key(*point, *base) { unimplemented!() }
 #[verifier::external_body]
 pub fn derive_private_revocation_key(secp: &VxSecp, secret: &SecretKey, base: &SecretKey) -> (r: SecretKey) ensures r == derived_private_revocation_key(*secret, *base) { unimplemented!() }
-impl VxSecp {
-    #[verifier::external_body]
-    pub fn sign_ecdsa(&self, msg: &Message, sk: &SecretKey) -> (r: Signature) ensures r == ecdsa_sign(*msg, *sk) { unimplemented!() }
-}
 //@type vls-core/src/channel.rs :: TypedSignature
 
 impl Channel {
